@@ -280,6 +280,10 @@ func (s *Scan) NewResponse() proto.Message {
 func (s *Scan) DeserializeCellBlocks(m proto.Message, b []byte) (uint32, error) {
 	scanResp := m.(*pb.ScanResponse)
 	partials := scanResp.GetPartialFlagPerResult()
+	if len(partials) != len(scanResp.GetCellsPerResult()) {
+		return 0, fmt.Errorf("got %d partial flags for %d results",
+			len(partials), len(scanResp.GetCellsPerResult()))
+	}
 	scanResp.Results = make([]*pb.Result, len(partials))
 	var readLen uint32
 	for i, numCells := range scanResp.GetCellsPerResult() {
